@@ -30,6 +30,9 @@ func init() {
 		replayGen{match: func(o *Obligation) bool {
 			return regexp.MustCompile(`^\(\*vm\.VmImpl\)\.Run/preserves/ledger-objects/bigval@\(\*vm/embedded\.OracleVoting2?\)\.Terminate`).MatchString(o.Name)
 		}, gen: genTerminateOutOfGas},
+		replayGen{match: func(o *Obligation) bool {
+			return strings.HasPrefix(o.Name, "(*blockchain.Blockchain).WriteIdentityStateDiff/post/empty-diff-leaves-no-diff-stored")
+		}, gen: genStaleIdentityDiff},
 	)
 }
 
@@ -387,5 +390,100 @@ func TestVerifReplay(t *testing.T) {
 			}
 		}
 	}
+}
+`
+
+// genStaleIdentityDiff: identity diffs are stored per height; a block with an empty diff must not
+// leave the diff of a dropped block of the same height in place. Real test chain: our branch
+// switches an identity online (non-empty diff at the identity-update block), the other branch does
+// not; after ResetTo + AddBlock of the other branch the stored diff of that height must be gone.
+func genStaleIdentityDiff(o *Obligation, P *Program) (string, string) {
+	return "// Replay of obligation " + o.Name + "\n" + staleIdentityDiffTest, "blockchain"
+}
+
+const staleIdentityDiffTest = `package blockchain
+
+import (
+	"fmt"
+	"math/big"
+	"testing"
+
+	"github.com/idena-network/idena-go/blockchain/attachments"
+	"github.com/idena-network/idena-go/blockchain/types"
+	"github.com/idena-network/idena-go/common"
+	"github.com/idena-network/idena-go/config"
+	"github.com/idena-network/idena-go/core/state"
+	"github.com/idena-network/idena-go/crypto"
+	"github.com/idena-network/idena-go/stats/collector"
+	"github.com/shopspring/decimal"
+)
+
+// Replay: the identity diff a node stores (and serves to fast-syncing peers) for a height must be
+// the diff of the CANONICAL block of that height, also after a reorganisation.
+func TestVerifReplay(t *testing.T) {
+	key, _ := crypto.GenerateKey()
+	addr := crypto.PubkeyToAddress(key.PublicKey)
+	consensusCfg := GetDefaultConsensusConfig()
+	consensusCfg.Automine = true
+	cfg := &config.Config{
+		Network:   0x99,
+		Consensus: consensusCfg,
+		GenesisConf: &config.GenesisConf{
+			Alloc: map[common.Address]config.GenesisAllocation{
+				addr: {State: uint8(state.Verified), Balance: new(big.Int).Mul(big.NewInt(100), common.DnaBase)},
+			},
+			GodAddress:        addr,
+			FirstCeremonyTime: 4070908800,
+		},
+		Validation: &config.ValidationConfig{},
+		Blockchain: &config.BlockchainConfig{},
+	}
+	chain, appState := NewCustomTestBlockchainWithConfig(5, 0, key, cfg)
+	defer chain.SecStore().Destroy()
+	chain.GenerateBlocks(35, 0) // height 40
+
+	// the other branch: nothing identity related happens
+	other, _ := chain.Copy()
+	other.GenerateBlocks(15, 0)
+
+	// our branch: the identity goes online; the switch is applied by the identity-update block 50
+	tx := BuildTx(appState, addr, nil, types.OnlineStatusTx, decimal.Zero, decimal.New(20, 0), decimal.Zero, 0, 0, attachments.CreateOnlineStatusAttachment(true))
+	tx, _ = types.SignTx(tx, key)
+	if err := chain.AddTx(tx); err != nil {
+		t.Skip("tx refused: ", err)
+	}
+	chain.GenerateBlocks(12, 0) // height 52
+	h := uint64(0)
+	for i := uint64(41); i <= 52; i++ {
+		if d := chain.GetIdentityDiff(i); d != nil && !d.Empty() {
+			h = i
+		}
+	}
+	if h == 0 {
+		t.Skip("no identity diff on our branch")
+	}
+	if d := other.GetIdentityDiff(h); d != nil && !d.Empty() {
+		t.Skip("the other branch also has a diff at that height")
+	}
+
+	// reorganisation: back to the common block, then the other branch's blocks
+	if _, err := chain.ResetTo(40); err != nil {
+		t.Skip("reset failed: ", err)
+	}
+	for i := uint64(41); i <= 55; i++ {
+		b := other.GetBlockByHeight(i)
+		if err := chain.AddBlock(b, nil, collector.NewStatsCollector()); err != nil {
+			t.Skip("block of the other branch refused: ", err)
+		}
+	}
+	if chain.GetBlockHeaderByHeight(h).Hash() != other.GetBlockHeaderByHeight(h).Hash() {
+		t.Skip("not on the other branch")
+	}
+	if d := chain.GetIdentityDiff(h); d != nil && !d.Empty() {
+		fmt.Printf("VERIF-REPLAY-VIOLATION: after the reorganisation the node still stores (and would serve) %d identity diff entries of the dropped block at height %d; the canonical block of that height has an empty identity diff (identity root %x)\n", len(d.Values), h, chain.GetBlockHeaderByHeight(h).IdentityRoot())
+		t.Fail()
+		return
+	}
+	fmt.Println("stored diff is the canonical block's diff")
 }
 `
